@@ -16,9 +16,17 @@
 (*             wide (pivot with the ids as y, then unpivot); judged by the scaling law, linear time *)
 EXTENDS RegroupBig, Batch
 
+\* a column made by the caller (constructor / setitem) under a key that is not a string: an int is rendered as its decimal
+\* string, any other scalar names its column as itself (Regroup!LabelEnc)
+LabelVerdict(o) == IF o.made.cols = <<"x", LabelEnc(o.key)>> THEN "" ELSE "column_label"
+RECURSIVE Verdict(_)
 Verdict(o) ==
     IF o.op = "session" THEN SessionVerdict(o)
     ELSE IF o.op = "scale" THEN ScaleVerdict(o)
+    ELSE IF o.op = "label" THEN LabelVerdict(o)
+    \* twin: two consecutive actions of one fresh process on two DIFFERENT tables whose labels are equal by == (1, 1.0, "1"):
+    \* a call has no memory - each is judged on its own arguments, whatever the process has seen before
+    ELSE IF o.op = "twin" THEN (LET v == Verdict(o.first) IN IF v # "" THEN "first_" \o v ELSE Verdict(o.second))
     ELSE IF o.op = "pivot" /\ LabelClash(o.t, o.x, o.y) THEN ""          \* outside the domain: two columns of one name
     ELSE IF o.raised # "" THEN o.stage \o "_raises"            \* stage = the call of the chain that raised
     ELSE IF o.after # o.t THEN "operand_changed"
